@@ -196,6 +196,8 @@ def fresh_seq(st, n, elem_shape, hint):
 def seq_len(s):
     if isinstance(s, (tuple, list)):
         return len(s)
+    if type(s).__name__ == "SText":
+        return s.length
     if isinstance(s, (SSeq, SRange)):
         return s.length
     if isinstance(s, LRef):
@@ -216,7 +218,7 @@ def seq_get(s, i):
         st = cur()
         k = st.choose([V._cmp("==", i, j) for j in range(len(s))])
         return s[k]
-    if isinstance(s, (SSeq, SRange)):
+    if isinstance(s, (SSeq, SRange)) or type(s).__name__ == "SText":
         return s.get(i)
     raise Unsupported(f"index of {type(s).__name__}")
 
